@@ -40,9 +40,9 @@ def plan(ctx):
     for c in cases:
         K = 3
         unit = ctx.unit('c01_' + c['name'], text=symgen.wrapper_text([c], variants='7'))
-        text, low, seen = symgen.harness_text(c, N, K, doc, maxres=3, variants=('ar', 'ao', 'nr', 'no', 'pr', 'po', 'qr'))
+        text, low, seen = symgen.harness_text(c, N, K, doc, maxres=3, variants=('ar', 'ao', 'nr', 'no', 'pr', 'po', 'qr', 'xr', 'xo'))
         h = ctx.write('h_%s.c' % c['name'], text)
-        for grp in (('ar', 'ao'), ('nr', 'no'), ('pr', 'po'), ('qr',)):
+        for grp in (('ar', 'ao'), ('nr', 'no'), ('pr', 'po'), ('qr',), ('xr', 'xo')):   # x: void apply attached but apply_mode::nothing
             cd = {'VF_SPLIT': 1}
             cd.update(('V_' + v, 1) for v in grp)
             qs.append(vf.Query('ops/%s/%s' % (c['name'], '+'.join(grp)), unit, h, unwind=N + 3, cbmc_defines=cd,
